@@ -324,6 +324,11 @@ theorem deref_census_sound (fn field cls : String) (h : siteClassified fn field 
   · rename_i hc; exact Or.inl ⟨hc, by simpa using h⟩
   · rename_i hc; exact Or.inr ⟨hc, by simpa using h⟩
 
+/-- the name under which DESIGN.md refers to the census obligation -/
+theorem deref_census_classified (fn field cls : String) (h : siteClassified fn field cls = true) :
+    (cls = "modelled" ∧ (fn, field) ∈ modelledSites) ∨ (cls ≠ "modelled" ∧ cls ∈ otherClasses) :=
+  deref_census_sound fn field cls h
+
 theorem unclassified_refused (fn field : String) : siteClassified fn field "unclassified" = false := by
   simp [siteClassified, otherClasses]
 
